@@ -50,7 +50,23 @@ func isSourceChar(r rune) bool {
 }
 
 // Lex tokenises src per §2.1 of the October 2021 specification.
-func Lex(src string) *LexResult {
+func Lex(src string) *LexResult { return lex(src, false) }
+
+// LexCloseRun is Lex with the library's deliberate deviation (recorded as finding F-C03-03): a block string closed by a run
+// of more than three quotes ends at the END of the run, the surplus quotes belonging to its value. Only used where the
+// token extents of such a text are needed as a frame of reference (C04); C03 judges against Lex.
+func LexCloseRun(src string) *LexResult { return lexMode(src, true, false) }
+
+// LexFrame gives the token extents used as a frame of reference for positions (C04): the close-run reading when the text has
+// a run of four quotes, and characters above U+FFFF accepted as source characters (the library follows the later
+// specification drafts there; the October 2021 grammar, which Lex implements, stops at U+FFFF and Lex abstains).
+func LexFrame(src string) *LexResult {
+	return lexMode(src, strings.Contains(src, `""""`), true)
+}
+
+func lex(src string, closeRun bool) *LexResult { return lexMode(src, closeRun, false) }
+
+func lexMode(src string, closeRun, wide bool) *LexResult {
 	res := &LexResult{}
 	if !utf8.ValidString(src) {
 		res.Abstain = "invalid-utf8"
@@ -60,10 +76,13 @@ func Lex(src string) *LexResult {
 	n := len(rs)
 	res.NChars = n
 	for _, r := range rs {
-		if r > 0xFFFF {
+		if r > 0xFFFF && !wide {
 			res.Abstain = "non-bmp-source-character"
 			return res
 		}
+	}
+	isSourceChar := func(r rune) bool {
+		return r == 0x9 || r == 0xA || r == 0xD || (r >= 0x20 && r <= 0xFFFF) || (wide && r > 0xFFFF)
 	}
 	at := func(i int) rune {
 		if i < n {
@@ -182,6 +201,10 @@ func Lex(src string) *LexResult {
 					if c == '"' && at(j+1) == '"' && at(j+2) == '"' {
 						closed = true
 						j += 3
+						for closeRun && at(j) == '"' {
+							raw = append(raw, '"')
+							j++
+						}
 						break
 					}
 					if c == '\\' && at(j+1) == '"' && at(j+2) == '"' && at(j+3) == '"' {
